@@ -24,7 +24,7 @@ func init() {
 		Explanation: "Lock-set analysis (must-hold dataflow over the SSA CFG of every function of stringclassifier, closures included) against a guarded-by table confirmed by reading: " +
 			"every access to Classifier.values (field load, lookup, update, range, len) holds muValues in the required mode; a write that is control-dependent on a read of the same guarded location shares the lock acquisition with it (check-then-act atomicity); " +
 			"knownValue.set is written once under the write lock behind a nil test in the same critical section, and read only under the lock or in functions whose every call site is dominated by that critical section on the same object; " +
-			"priority-queue operations that can run in spawned goroutines hold the queue's mutex. In addition the effect analysis E1 enumerates every write to shared memory reachable from the v1 entry points (through goroutines and container/heap callbacks); any write outside the table is a violation. " +
+			"priority-queue operations that can run in spawned goroutines hold the queue's mutex; a known value is stored into the shared map only after all its (afterwards immutable) fields were written. In addition the effect analysis E1 enumerates every write to shared memory reachable from the v1 entry points (through goroutines and container/heap callbacks); any write outside the table is a violation. " +
 			"Decides race freedom of these accesses on every interleaving; does not decide that concurrent results equal sequential ones (NearestMatch ties are documented as undefined).",
 		Run: runC14,
 	})
@@ -273,6 +273,9 @@ func runC14(c *Ctx) {
 		}
 	}
 	c.R.RequireMin("R14.4", "queue operations in goroutines", len(qops), 2)
+
+	// ---- R14.6: a known value is complete before it is published ----------------------
+	checkPublishAfterInit(c, p, fns, kvName, setField)
 
 	// ---- R14.5: every other shared write reachable from the v1 entry points -----------
 	checkV1SharedWrites(c, p)
@@ -569,3 +572,60 @@ func checkV1SharedWrites(c *Ctx, p *core.Prog) {
 }
 
 var _ = types.Typ
+
+// checkPublishAfterInit: R14.6. Matchers read the fields of a known value without holding the lock,
+// which is sound only because they are immutable after construction. Every store to a field of a
+// locally allocated known value must therefore precede the instruction that publishes it (stores it
+// into the shared map); the lazily built search set is the one audited exception (R14.3).
+func checkPublishAfterInit(c *Ctx, p *core.Prog, fns []*ssa.Function, kvName, lazyField string) {
+	n := 0
+	for _, f := range fns {
+		for _, b := range f.Blocks {
+			for _, in := range b.Instrs {
+				al, ok := in.(*ssa.Alloc)
+				if !ok || core.TypeName(al.Type()) != kvName || core.StructOf(al.Type()) == nil {
+					continue
+				}
+				var publish []ssa.Instruction
+				var stores []*ssa.Store
+				for _, r := range *al.Referrers() {
+					switch x := r.(type) {
+					case *ssa.MapUpdate:
+						if x.Value == ssa.Value(al) {
+							publish = append(publish, x)
+						}
+					case *ssa.Store:
+						if x.Val == ssa.Value(al) {
+							if _, isLocal := x.Addr.(*ssa.Alloc); !isLocal {
+								publish = append(publish, x)
+							}
+						}
+					case *ssa.FieldAddr:
+						for _, u := range *x.Referrers() {
+							if st, ok := u.(*ssa.Store); ok && st.Addr == ssa.Value(x) && core.FieldName(x) != lazyField {
+								stores = append(stores, st)
+							}
+						}
+					}
+				}
+				if len(publish) == 0 {
+					continue
+				}
+				n++
+				bad := false
+				for _, st := range stores {
+					for _, pb := range publish {
+						if !instrBeforeI(st, pb) {
+							bad = true
+							c.R.Fail("R14.6", core.ShortFn(f)+": a field of a known value is written after the value was published", p.Pos(st.Pos()), "the value is already reachable from the shared map when its field "+core.FieldName(st.Addr)+" is assigned: matchers read these fields without the lock (they rely on immutability after construction), so they can see a half-initialised value")
+						}
+					}
+				}
+				if !bad {
+					c.R.OK("R14.6", core.ShortFn(f)+": the known value is complete before it is stored into the shared map", p.Pos(al.Pos()), fmt.Sprintf("%d field stores, all before the publication", len(stores)))
+				}
+			}
+		}
+	}
+	c.R.RequireMin("R14.6", "known values constructed and published", n, 1)
+}
